@@ -36,7 +36,7 @@ namespace sim {
     X(frame_read_row, "C15", 0) X(frame_read_cell, "C15", 0) X(frame_read_col, "C15", 0) \
     X(abuse_array, "C16", 1) X(abuse_dims, "C16", 1) X(abuse_tag, "C16", 1) X(abuse_none, "C16", 1) \
     X(abuse_frame, "C16", 1) X(abuse_misc, "C16", 1) \
-    X(force_id, "C12", 1) X(mk_graph, "C04", 1) X(abuse_tagging, "C16", 1) X(mk_fitted, "C04", 1) X(abuse_legacy, "C16", 1) X(second_view, "C02", 0) X(del_misdirected, "C04", 1) X(replace_member, "C03", 1) \
+    X(force_id, "C12", 1) X(mk_graph, "C04", 1) X(abuse_tagging, "C16", 1) X(mk_fitted, "C04", 1) X(abuse_legacy, "C16", 1) X(second_view, "C02", 0) X(del_misdirected, "C04", 1) X(replace_member, "C03", 1) X(force_created, "C02", 1) X(mk_crowd, "C11", 1) \
     X(ro_catalogue, "C09", 0) X(mode_probe, "C09", 0) X(version_cube, "C10", 0) X(xp, "C12", 0)
 
 enum OpKind {
@@ -193,10 +193,11 @@ struct World {
     std::string open_path();    // the name under which the current file is opened
     std::string shaped(const std::string &p);
     bool threaded_run;          // some operations of this run are issued from a second caller thread (started and joined per operation)
+    bool hoard_next_close;      // the next close() happens with handles to every entity of the file alive (set by mk_crowd)
     bool ghosts_allowed;        // keep handles to deleted / still-live entities across operations (abuse, durable lanes)
 
     World() : file_gen(0), f2_open(false), is_open(false), mode(0), session(0), cur(-1), have_last(false), flush_valid(false), ro_tracking(false),
-              ro_writes0(0), ro_wopens0(0), getters(0), sim_start(0), stop(false), path_shape(0), next_open_force(false), via_symlink(false), twin_safe(false), blind(false), threaded_run(false), ghosts_allowed(false), del_result(false) { prefer_live = false; viol_own = false; lookups_due = true; }
+              ro_writes0(0), ro_wopens0(0), getters(0), sim_start(0), stop(false), path_shape(0), next_open_force(false), via_symlink(false), twin_safe(false), blind(false), threaded_run(false), hoard_next_close(false), ghosts_allowed(false), del_result(false) { prefer_live = false; viol_own = false; lookups_due = true; }
 
     // -- running
     void run(const Plan &p, const std::string &dir);
